@@ -2,7 +2,12 @@ package main
 
 import (
 	"fmt"
+	"go/ast"
+	"go/token"
 	"go/types"
+	"reflect"
+	"regexp"
+	"strconv"
 	"path/filepath"
 	"sort"
 	"strings"
@@ -95,5 +100,164 @@ func runStructural(name string, P *Program) (checked int, violations []string) {
 		}
 		return checked, violations
 	}
+	if name == "json_field_coverage" {
+		return jsonFieldCoverage(P)
+	}
 	return 0, []string{"unknown structural check " + name}
+}
+
+// jsonFieldCoverage (C08): every hand-written JSON object decoder — a call
+// iter.ReadObjectCB(func(iter, f string) bool { switch f { case ...: } }) — is matched against the
+// protobuf message it fills (the protogen struct most of its cases assign into): for every
+// protobuf field of that message, and for every member of its one-of groups, both the proto name
+// (snake_case) and the JSON name (camelCase) must be a case of the switch. A field without a case is
+// silently skipped by the decoder (default: iter.Skip()), i.e. lost in a JSON round trip.
+func jsonFieldCoverage(P *Program) (checked int, violations []string) {
+	tagRe := regexp.MustCompile(`name=([A-Za-z0-9_]+)`)
+	jsonRe := regexp.MustCompile(`json=([A-Za-z0-9_]+)`)
+	var paths []string
+	for p := range P.ByPath {
+		if strings.HasPrefix(p, "go.opentelemetry.io/collector/pdata") && !strings.Contains(p, "/protogen/") {
+			paths = append(paths, p)
+		}
+	}
+	sort.Strings(paths)
+	protoStruct := func(t types.Type) *types.Named {
+		if pt, ok := t.Underlying().(*types.Pointer); ok {
+			t = pt.Elem()
+		}
+		n, ok := types.Unalias(t).(*types.Named)
+		if !ok || n.Obj().Pkg() == nil || !strings.Contains(n.Obj().Pkg().Path(), "/protogen/") {
+			return nil
+		}
+		if _, ok := n.Underlying().(*types.Struct); !ok {
+			return nil
+		}
+		return n
+	}
+	for _, path := range paths {
+		pkg := P.ByPath[path]
+		for _, file := range pkg.Syntax {
+			fname := P.Fset.Position(file.Pos()).Filename
+			if strings.HasSuffix(fname, "_test.go") {
+				continue
+			}
+			ast.Inspect(file, func(n ast.Node) bool {
+				call, ok := n.(*ast.CallExpr)
+				if !ok || len(call.Args) != 1 {
+					return true
+				}
+				sel, ok := call.Fun.(*ast.SelectorExpr)
+				if !ok || sel.Sel.Name != "ReadObjectCB" {
+					return true
+				}
+				fl, ok := call.Args[0].(*ast.FuncLit)
+				if !ok {
+					return true
+				}
+				var sw *ast.SwitchStmt
+				for _, st := range fl.Body.List {
+					if s, ok := st.(*ast.SwitchStmt); ok {
+						sw = s
+					}
+				}
+				if sw == nil {
+					return true
+				}
+				cases := map[string]bool{}
+				votes := map[*types.Named]int{}
+				for _, cl := range sw.Body.List {
+					cc := cl.(*ast.CaseClause)
+					for _, e := range cc.List {
+						if bl, ok := e.(*ast.BasicLit); ok && bl.Kind == token.STRING {
+							if v, err := strconv.Unquote(bl.Value); err == nil {
+								cases[v] = true
+							}
+						}
+					}
+					for _, st := range cc.Body {
+						ast.Inspect(st, func(m ast.Node) bool {
+							if _, nested := m.(*ast.FuncLit); nested {
+								return false
+							}
+							if se, ok := m.(*ast.SelectorExpr); ok {
+								if tv, ok := pkg.TypesInfo.Types[se.X]; ok {
+									if ps := protoStruct(tv.Type); ps != nil {
+										if _, isField := pkg.TypesInfo.Selections[se]; isField {
+											votes[ps]++
+										}
+									}
+								}
+							}
+							return true
+						})
+					}
+				}
+				var target *types.Named
+				best := 0
+				for t, v := range votes {
+					if v > best || (v == best && target != nil && t.Obj().Name() < target.Obj().Name()) {
+						target, best = t, v
+					}
+				}
+				pos := P.Fset.Position(call.Pos())
+				where := fmt.Sprintf("%s:%d", filepath.Base(pos.Filename), pos.Line)
+				if target == nil {
+					return true // a decoder of something that is not a protogen message (not judged)
+				}
+				st := target.Underlying().(*types.Struct)
+				var want []string
+				addTag := func(tag string) {
+					pb := reflect.StructTag(tag).Get("protobuf")
+					if pb == "" {
+						return
+					}
+					if m := tagRe.FindStringSubmatch(pb); m != nil {
+						if strings.HasPrefix(m[1], "deprecated_") {
+							// compatibility fields of old OTLP versions (field number 1000): the data
+							// model has no accessor for them, so no value of the data model carries them
+							return
+						}
+						want = append(want, m[1])
+						if j := jsonRe.FindStringSubmatch(pb); j != nil {
+							want = append(want, j[1])
+						}
+					}
+				}
+				for i := 0; i < st.NumFields(); i++ {
+					tag := st.Tag(i)
+					if reflect.StructTag(tag).Get("protobuf_oneof") != "" {
+						// members of the one-of: the wrapper types of the same package implementing the interface
+						it, ok := st.Field(i).Type().Underlying().(*types.Interface)
+						if !ok {
+							continue
+						}
+						sc := target.Obj().Pkg().Scope()
+						for _, nm := range sc.Names() {
+							tn, ok := sc.Lookup(nm).(*types.TypeName)
+							if !ok {
+								continue
+							}
+							ws, ok := tn.Type().Underlying().(*types.Struct)
+							if !ok || ws.NumFields() != 1 || !types.Implements(types.NewPointer(tn.Type()), it) {
+								continue
+							}
+							addTag(ws.Tag(0))
+						}
+						continue
+					}
+					addTag(tag)
+				}
+				for _, w := range want {
+					checked++
+					if !cases[w] {
+						violations = append(violations, fmt.Sprintf("JSON decoder at %s fills %s.%s but has no case %q: the field is skipped when decoding", where, target.Obj().Pkg().Name(), target.Obj().Name(), w))
+					}
+				}
+				return true
+			})
+		}
+	}
+	sort.Strings(violations)
+	return checked, violations
 }
